@@ -354,7 +354,7 @@ def run(ctx, rep):
     K.share(ctx, rep, "c12", lambda o: o.rule in ("R12.2", "R12.3", "R12.5"), "R10.13", floor=3)
     # a release notice whose transmission fails is not silently lost on a connection that stays open (the proxy's finalizer
     # swallows the error): a failed write closes the stream (= R05.3)
-    K.share(ctx, rep, "c05", lambda o: o.rule == "R05.3" and ".write:" in o.key, "R10.13", floor=2)
+    K.share(ctx, rep, "c05", lambda o: o.rule == "R05.3" and ("write" in o.key), "R10.13")
     K.share(ctx, rep, "c03", lambda o: o.rule == "R03.2" and "is never refused" in o.key, "R10.7", floor=3)
 
 
